@@ -421,6 +421,9 @@ func (e *Engine) Explore(h *ssa.Function, seed int64, nValidate int) *HarnessRep
 		if e.teeDir != "" {
 			sess.teeDir, sess.teeN, sess.teeMax = e.teeDir, &e.teeN, e.teeMax
 		}
+		if e.params["_tactic"] == 1 || os.Getenv("GOSYM_TACTIC_ONLY") != "" {
+			sess.tacticOnly = true
+		}
 		for {
 			mu.Lock()
 			for len(stack) == 0 && active > 0 {
